@@ -10,7 +10,7 @@ use std::collections::{BTreeMap, BTreeSet};
 pub struct TaskInfo {
     pub ok: bool, // solo returned
     pub steps: u32,
-    pub sites: Vec<&'static str>,
+    pub sites: Vec<String>,
     pub ndiags: u32,
 }
 
@@ -22,17 +22,18 @@ pub struct World {
     /// indices of tasks usable in simulated runs (solo returned)
     pub pool: Vec<usize>,
     /// site -> tasks of the pool whose solo run hits it (fewest steps first)
-    pub by_site: BTreeMap<&'static str, Vec<usize>>,
+    pub by_site: BTreeMap<String, Vec<usize>>,
     /// "interesting" sites: where process-shared state is touched
     pub crash_list: Vec<(usize, u32)>,
     pub ecrash_list: Vec<(usize, u32)>,
     pub preempt_list: Vec<(usize, usize, u32)>,
     pub probes: Vec<usize>,
+    pub long_runs: u64,
 }
 
 /// Steps of a solo trace worth a systematic fault/preemption: the first two and the last
 /// occurrence of every site (quick), or every step (thorough).
-pub fn chosen_steps(sites: &[&'static str], all: bool) -> Vec<u32> {
+pub fn chosen_steps(sites: &[String], all: bool) -> Vec<u32> {
     if all {
         return (1..=sites.len() as u32).collect();
     }
@@ -40,12 +41,12 @@ pub fn chosen_steps(sites: &[&'static str], all: bool) -> Vec<u32> {
     let mut last: BTreeMap<&str, u32> = BTreeMap::new();
     let mut out = BTreeSet::new();
     for (i, s) in sites.iter().enumerate() {
-        let n = seen.entry(s).or_insert(0);
+        let n = seen.entry(s.as_str()).or_insert(0);
         if *n < 2 {
             out.insert(i as u32 + 1);
         }
         *n += 1;
-        last.insert(s, i as u32 + 1);
+        last.insert(s.as_str(), i as u32 + 1);
     }
     out.extend(last.values().copied());
     out.into_iter().collect()
@@ -54,9 +55,9 @@ pub fn chosen_steps(sites: &[&'static str], all: bool) -> Vec<u32> {
 impl World {
     pub fn build(seed: u64, thorough: bool, tasks: Vec<PlanTask>, info: Vec<TaskInfo>) -> World {
         let pool: Vec<usize> = (0..tasks.len()).filter(|i| info[*i].ok).collect();
-        let mut by_site: BTreeMap<&'static str, Vec<usize>> = BTreeMap::new();
+        let mut by_site: BTreeMap<String, Vec<usize>> = BTreeMap::new();
         for &i in &pool {
-            let set: BTreeSet<&'static str> = info[i].sites.iter().copied().collect();
+            let set: BTreeSet<String> = info[i].sites.iter().cloned().collect();
             for s in set {
                 by_site.entry(s).or_default().push(i);
             }
@@ -127,7 +128,8 @@ impl World {
                 }
             }
         }
-        World { seed, thorough, tasks, info, pool, by_site, crash_list, ecrash_list, preempt_list, probes }
+        let long_runs = if thorough { 256 } else { 32 };
+        World { seed, thorough, tasks, info, pool, by_site, crash_list, ecrash_list, preempt_list, probes, long_runs }
     }
 
     fn base(&self, stratum: &str, run: u64) -> Plan {
@@ -153,6 +155,7 @@ impl World {
             "crash" => (self.crash_list.len() + self.ecrash_list.len()) as u64,
             "preempt" => self.preempt_list.len() as u64,
             "random" => random_runs,
+            "long" => self.long_runs,
             _ => 0,
         }
     }
@@ -221,8 +224,8 @@ impl World {
         p.max_restarts = if en_restart { 1 + rng.below(2) as u8 } else { 0 };
         p.boundary_fault_pct = if en_replace || en_restart { 10 + rng.below(25) as u32 } else { 0 };
         // tasks: half of the runs draw from one feature tag, the other half uniformly
-        let sites: Vec<&&'static str> = self.by_site.keys().collect();
-        let tag_pool: Option<&Vec<usize>> = if rng.chance(50) && !sites.is_empty() { self.by_site.get(*sites[rng.below(sites.len())]) } else { None };
+        let sites: Vec<&String> = self.by_site.keys().collect();
+        let tag_pool: Option<&Vec<usize>> = if rng.chance(50) && !sites.is_empty() { self.by_site.get(sites[rng.below(sites.len())]) } else { None };
         let mut crashes = 0;
         for n in 0..nt {
             let i = if en_dup && n > 0 && rng.chance(35) {
@@ -268,8 +271,37 @@ impl World {
             }
             Strategy::Pct { priorities: pr, change_points: (0..d).map(|_| 1 + rng.next() % est).collect() }
         } else {
-            Strategy::Random { stay: [0, 50, 80, 90, 97][rng.below(5)] }
+            Strategy::Random { stay: [0, 50, 80, 90, 95, 98, 99][rng.below(7)] }
         };
+        (p, vec![])
+    }
+
+    /// stratum 5: one long-lived process — hundreds of files, one after another, on one or two
+    /// reused worker threads (what a build tool's worker does), a sparse sprinkling of crashes in
+    /// every other run. Exposes dependence on process / thread history that short runs are too
+    /// short for.
+    pub fn long_plan(&self, run: u64) -> (Plan, Vec<Action>) {
+        let mut p = self.base("long", run);
+        let mut rng = Rng::new(mix(self.seed ^ mix(run.wrapping_mul(0x51_7C_C1_B7)) ^ 0x4c4f_4e47));
+        p.workers = 1 + (run % 2) as u8;
+        p.globals = if run % 3 == 0 { GlobalsMode::PerTask } else { GlobalsMode::Shared };
+        p.store = if run % 4 < 2 { StoreMode::Shared } else { StoreMode::PerTask };
+        let n = if self.thorough { self.pool.len().min(1500) } else { self.pool.len().min(400) };
+        let with_crashes = run % 2 == 1;
+        // a seeded permutation prefix of the pool
+        let mut idx: Vec<usize> = self.pool.clone();
+        for i in 0..n.min(idx.len()) {
+            let j = i + rng.below(idx.len() - i);
+            idx.swap(i, j);
+        }
+        for &i in idx.iter().take(n) {
+            let mut t = self.tasks[i].clone();
+            if with_crashes && rng.chance(4) {
+                t.crash_at = Some(1 + rng.below(self.info[i].steps as usize + 1) as u32);
+            }
+            p.tasks.push(t);
+        }
+        p.strategy = if p.workers == 1 { Strategy::Script } else { Strategy::Random { stay: 97 } };
         (p, vec![])
     }
 
@@ -282,6 +314,7 @@ impl World {
             "crash" => self.crash_plan(run),
             "preempt" => self.preempt_plan(run),
             "random" => self.random_plan(run),
+            "long" => self.long_plan(run),
             _ => panic!("unknown stratum {stratum}"),
         }
     }
